@@ -1370,7 +1370,7 @@ CHECK = Check(
     modules=["WzVerif.Props.C16", "WzVerif.Props.C08T", "WzVerif.Props.C16T"],
     streams=[ViewsStream(), SharedViewsStream(), ScalarStream()],
     assumptions=[
-        "the header codecs used by the views are the C06 models (Model/Http.lean: parse_list_header/urllib parse_http_list, parse_set_header, parse_dict_header, dump_header, parse_csp_header, parse_content_range_header, WWWAuthenticate.from_header/to_header, parse_options_header, dump_options_header), validated here by stream views and in C06 by its own streams; the view_coherent_* theorems use the C06 round-trip theorems, their only side conditions are explicit domain predicates on the written views (setGood, dictGood, cspGood, crGood, authGood, mpGood) and HeaderSet.Inv / non-colliding item assignment for the set views; WWW-Authenticate Digest challenges (always-quoted parameters) are outside authGood: no round-trip theorem exists for them yet",
+        "the header codecs used by the views are the C06 models (Model/Http.lean: parse_list_header/urllib parse_http_list, parse_set_header, parse_dict_header, dump_header, parse_csp_header, parse_content_range_header, WWWAuthenticate.from_header/to_header, parse_options_header, dump_options_header), validated here by stream views and in C06 by its own streams; the view_coherent_* theorems use the C06 round-trip theorems, their only side conditions are explicit domain predicates on the written views (setGood, dictGood, cspGood, crGood, authGood, mpGood) and HeaderSet.Inv / non-colliding item assignment for the set views; WWW-Authenticate Digest challenges (always-quoted parameters) are inside authGood through C06's www_digest_roundtrip when every parameter value is a text",
         "ContentRange.set / unset / to_header / __bool__ are regenerated from the source by tools/py2lean.py (Gen/PyFns_HttpDict.lean) on every run and proved equal to the view model's steps CR.step / CR.toHeader for all inputs (Props/C16T); the object's attributes and the flag 'on_update was called' are threaded explicitly",
         "dates: typed_get_set_date is proved on C06's date model (http_date / parse_date of every second from year 100 to 9999); in the scalars stream the harness still computes the date text with the library call and the model covers the Headers mechanics; retry_after's clock (datetime.now) is pinned by the harness and int(value) is CC.pyInt (optional sign + ASCII digits); generate_etag / sha1 do not occur (set_etag takes the tag)",
         "view objects shared between responses and several live view objects of one response: Lemmas/ViewsShared (coherent2) over any number of responses and held objects; the www_authenticate setter re-binds the object's on_update to the assigned-to response (AST fact www_authenticate_rebinds_in_source), the other setters store text only; tied to the code by stream views-shared (two responses, two held objects)",
@@ -1386,7 +1386,7 @@ CHECK = Check(
 
 MANIFEST = {
     "level_text": "Machine-checked Lean 4 theorems: for every history of view mutations, re-fetches, whole-property assignments and direct header edits, the notification discipline of each view family (HeaderSet views under HeaderSet.Inv, cache-control / CSP / mimetype_params callback dicts, ContentRange, WWWAuthenticate as repaired) keeps the held view in sync with the header, and after an effective mutation the header text is the view's serialisation or absent when the view is empty; the same for view objects shared between several responses and several live objects of one response (the www_authenticate setter re-targets the callback, proved and pinned in the source by an AST obligation); typed get/set for every scalar property (str, int, age, dates on the C06 date model, set-valued access-control headers, COOP/COEP enums, mimetype, retry_after, access_control_allow_credentials, set_etag/get_etag) with a decide obligation that every header-backed attribute of sansio.Response is covered or excluded. The transcribed views are tied to the code by an exhaustive short-history correspondence stream and the two-part property oracle runs on the real objects.",
-    "level_note": "Trusted: Lean kernel; extract.py; harness; codec round trips are the C06 theorems (domain predicates on the written views are the only side conditions; Digest challenges not covered); dates opaque. Known findings F16b, F16c, F16d, F16f, F08b/F08c through views.",
+    "level_note": "Trusted: Lean kernel; extract.py; harness; codec round trips are the C06 theorems (domain predicates on the written views are the only side conditions; Digest challenges included); dates opaque. Known findings F16b, F16c, F16d, F16f, F08b/F08c through views.",
     "technique": "Lean 4 proof (invariant over operation histories, generic in the view family) + model/code correspondence",
     "design_ref": "DESIGN.md section 4, C16",
 }
